@@ -11,13 +11,15 @@ Rec == ndJsonDeserialize(IOEnv.TRACE)
 VARIABLES l, len, good
 tvars == <<l, len, good>>
 TInit == l = 1 /\ len = 0 /\ good = TRUE
-TReset == l <= Len(Rec) /\ Rec[l].ev = "reset" /\ l' = l + 1 /\ len' = 0 /\ good' = TRUE
+\* reset: a new history (length 0), or - `damaged` - the harness itself rewrote the log as a crash would have left it: the
+\* length is unknown (-1) until the next observation
+TReset == l <= Len(Rec) /\ Rec[l].ev = "reset" /\ l' = l + 1 /\ len' = (IF "damaged" \in DOMAIN Rec[l] THEN -1 ELSE 0) /\ good' = TRUE
 TCall == /\ l <= Len(Rec) /\ Rec[l].ev = "call" /\ l' = l + 1
          /\ LET r == Rec[l] IN
             /\ len' = r.len_after
-            /\ good' = /\ r.len_before = len              \* nothing touched the log between calls
+            /\ good' = /\ (r.len_before = len \/ len = -1)   \* nothing touched the log between calls
                        /\ r.prefix_ok /\ r.len_after >= r.len_before      \* AppendOnly
-                       /\ r.nl /\ r.lines_ok                               \* WholeFrames
+                       /\ (r.len_after > r.len_before => r.nl /\ r.lines_ok)   \* WholeFrames (of what was added)
                        /\ (r.ro => r.len_after = r.len_before)             \* ReadOnlyQuiet
                        /\ (~r.ok /\ ~r.failed_append => r.len_after = r.len_before)  \* refused requests are quiet
 TNext == TReset \/ TCall
